@@ -218,6 +218,42 @@ fn main() {
         if plain != exp_plain.join(", ") {
             bad(&mut t, format!("Display of {b:06b} = {plain:?}"), case.clone());
         }
+        // formatting parameters of the caller (width, alignment, fill, precision): a rendering is
+        // one piece of text - either the parameters are ignored, or they apply to the rendering
+        // as a whole (`Formatter::pad`); they must never be applied to the members one by one
+        macro_rules! spec {
+            ($fmt:literal) => {{
+                for (what, plain_text, got) in [
+                    ("Display", plain.as_str(), format!($fmt, s)),
+                    ("disjunction", d.as_str(), format!($fmt, s.as_disjunction())),
+                    ("conjunction", c.as_str(), format!($fmt, s.as_conjunction())),
+                ] {
+                    t.evals += 1;
+                    let whole = format!($fmt, plain_text);
+                    if got != plain_text && got != whole {
+                        bad(&mut t, format!("{what} of {b:06b} under {:?} = {got:?}: neither the plain rendering {plain_text:?} nor that rendering formatted as a whole {whole:?}", $fmt), case.clone());
+                    }
+                }
+            }};
+        }
+        spec!("{:>12}");
+        spec!("{:<3}");
+        spec!("{:^40}");
+        spec!("{:*>9}");
+        spec!("{:.3}");
+        spec!("{:.0}");
+        spec!("{:7.2}");
+        spec!("{:#}");
+        for (i, k) in KINDS.iter().enumerate() {
+            if b == 1 << i {
+                for got in [format!("{:>12}", k), format!("{:.3}", k), format!("{:.0}", k)] {
+                    let name = NAMES[i];
+                    if got != name && got != format!("{:>12}", name) && got != format!("{:.3}", name) && got != format!("{:.0}", name) {
+                        bad(&mut t, format!("Kind {name} formatted with parameters = {got:?}"), case.clone());
+                    }
+                }
+            }
+        }
         t.outcome(match b.count_ones() {
             0 => "set:nothing",
             1 => "set:single",
